@@ -181,6 +181,7 @@ def explore(progs, init_globals, nthreads, budget, gc_init, max_states=3_000_000
         gc_init,
         tuple(-1 for _ in lock_names),
         tuple((0, budget, None, 0, ()) for _ in range(nthreads)),
+        gc_init,  # the collector's state before the first call of the current busy period
     )
     seen = {init: None}
     frontier = [init]
@@ -197,7 +198,7 @@ def explore(progs, init_globals, nthreads, budget, gc_init, max_states=3_000_000
         return list(reversed(out))
 
     def check(state):
-        gv, gcf, locks, threads = state
+        gv, gcf, locks, threads, ref = state
         env = dict(zip(gnames, gv))
         inprog = sum(t[0] for t in threads if t[2] is None) + sum(
             (t[0] if t[2] == ENTER else t[0] - 1) for t in threads if t[2] is not None
@@ -212,14 +213,22 @@ def explore(progs, init_globals, nthreads, budget, gc_init, max_states=3_000_000
             total = sum(t[0] for t in threads)
             if cnt is not None and cnt != total:
                 return f"counter is {cnt} but {total} call(s) are in progress (all threads between calls)"
-            if total == 0 and gcf != gc_init:
-                return f"all calls returned but the collector is {'enabled' if gcf else 'disabled'}; it was {'enabled' if gc_init else 'disabled'} before"
+            if total == 0 and gcf != ref:
+                return f"all calls returned but the collector is {'enabled' if gcf else 'disabled'}; it was {'enabled' if ref else 'disabled'} before the first of them started"
         return None
 
     while frontier:
         nxt = []
         for state in frontier:
-            gv, gcf, locks, threads = state
+            gv, gcf, locks, threads, ref = state
+            if all(t[2] is None and t[0] == 0 for t in threads) and any(t[1] > 0 for t in threads):
+                # quiescent: the application may switch the collector itself between solver calls; the state
+                # to restore is then the one it chose
+                ns = (gv, not gcf, locks, threads, not gcf)
+                transitions += 1
+                if ns not in seen:
+                    seen[ns] = (state, f"application: gc.{'disable' if gcf else 'enable'}() while no call is in progress")
+                    nxt.append(ns)
             for ti, (depth, bud, fn, pc, loc) in enumerate(threads):
                 succs = []
                 if fn is None:
@@ -286,7 +295,7 @@ def explore(progs, init_globals, nthreads, budget, gc_init, max_states=3_000_000
                     nthreads_ = list(threads)
                     nthreads_[ti] = nt
                     # symmetry reduction is not applied: thread ids appear in lock ownership
-                    ns = (ngv, ngc, nlocks, tuple(nthreads_))
+                    ns = (ngv, ngc, nlocks, tuple(nthreads_), ref)
                     if ns in seen:
                         continue
                     seen[ns] = (state, label)
@@ -329,7 +338,8 @@ def _init_globals(tree):
     family="FIN",
     desc="_enter_z3/_exit_z3 extracted into guarded commands; all interleavings (statement granularity, lock "
     "semantics) of threads doing well-nested enter/exit sequences explored: GC disabled while a call is in "
-    "progress, counter consistent and never negative, GC state restored at the end, underflow branch unreachable",
+    "progress, counter consistent and never negative, GC state restored at the end of every busy period (the "
+    "application may switch the collector between busy periods), underflow branch unreachable",
 )
 def c19_model(R):
     tree = R.tree
